@@ -20,10 +20,12 @@
 
 from __future__ import annotations
 
+from numbers import Number
 from typing import Any
 from typing import ClassVar
 
 from numpy import argmax
+from numpy import asarray
 from numpy import full
 from numpy import ndarray
 from numpy import tile
@@ -232,6 +234,10 @@ class FirstOrderFD(BaseGradientApproximator):
     ) -> tuple[ndarray, ndarray]:
         input_dimension = len(input_values)
         n_indices = len(input_indices)
+        if not isinstance(step, Number) and len(step) == input_dimension:
+            # One step per input component: keep the steps of the differentiated ones.
+            step = asarray(step)[input_indices]
+
         input_perturbations = (
             tile(input_values, n_indices).reshape((n_indices, input_dimension)).T
         )
